@@ -48,7 +48,7 @@ def registry():
                                                    'else spec.der.tlv_ok(der_encoded, self._tag_octet)) and spec.der.tlv_size(der_encoded) == len(der_encoded))')},
                      ensures={'self': 'result is self',
                               'payload': 'self.payload == (spec.der.tlv_content(spec.der.tlv_content(der_encoded)) if hasattr(self, "_inner_tag_octet") else spec.der.tlv_content(der_encoded))'},
-                     modifies=['self.payload', 'self._tag_octet'],
+                     modifies=['self.payload', 'self._tag_octet'], returns='self',
                      opaque=['spec.der.tlv_ok', 'spec.der.tlv_size', 'spec.der.tlv_content', 'spec.der.explicit_ok']))
     # ---------------- DerInteger
     reg.add(ClassContract(A + 'DerInteger',
@@ -61,7 +61,7 @@ def registry():
                                             % (ok, content % (rem, rem), content % (rem, rem), content % (rem, rem), content % (rem, rem)))},
                      ensures={'payload': 'self.payload == ' + content % (orem, orem),
                               'value': 'self.value == spec.der.int_value(self.payload)',
-                              'consumed': 's._index == old(s._index) + spec.der.tlv_size(%s)' % orem},
+                              'consumed': 's._index == old(s._index) + spec.der.tlv_size(%s)' % orem, 'valid': 'valid(s)'},
                      modifies=['s._index', 'self.payload', 'self._tag_octet', 'self.value'],
                      loops={0: {'invariant': ['self.value == be(self.payload[:_k])', 'bits == pow2(8 * _k)'], 'index': '_k'}},
                      opaque=['spec.der.tlv_ok', 'spec.der.tlv_size', 'spec.der.tlv_content', 'spec.der.explicit_ok'],
@@ -73,6 +73,8 @@ def registry():
     lemma_contract(reg, 'spec.der.lemma_len_prefix', {'d': 'bytes', 'p': 'bytes'})
     lemma_contract(reg, 'spec.der.lemma_tlv_build', {'t': 'int', 'd': 'bytes', 'p': 'bytes'},
                    opaque=['spec.der.length_ok', 'spec.der.length_octets', 'spec.der.length_value'])
+    lemma_contract(reg, 'spec.der.lemma_len_trunc', {'d': 'bytes', 'n': 'nat'})
+    lemma_contract(reg, 'spec.der.lemma_tlv_prefix', {'b': 'bytes', 't': 'int[0..255]|none'})
     LEN = ['spec.der.length_ok', 'spec.der.length_octets', 'spec.der.length_value']
     TLV = ['spec.der.tlv_ok', 'spec.der.tlv_size', 'spec.der.tlv_content', 'spec.der.explicit_ok']
     # non-explicit objects: result == tag || definite(len payload) || payload
@@ -99,6 +101,44 @@ def registry():
                                 'havoc': ['self.payload']}},
                      inline=[A + 'DerObject.encode'] if False else [],
                      options={'be_unfold': True}))
+    # DerInteger.decode: DerObject.decode's body with the virtual call resolved to DerInteger._decodeFromStream (inlined here)
+    iok = ('(spec.der.explicit_ok(der_encoded, self._tag_octet, self._inner_tag_octet) if hasattr(self, "_inner_tag_octet") '
+           'else spec.der.tlv_ok(der_encoded, self._tag_octet))')
+    icontent = '(spec.der.tlv_content(spec.der.tlv_content(der_encoded)) if hasattr(self, "_inner_tag_octet") else spec.der.tlv_content(der_encoded))'
+    reg.add(Contract(A + 'DerInteger.decode', params={'der_encoded': 'bytes', 'strict': 'bool'},
+                     raises={'ValueError': ('iff', 'not (%s and spec.der.tlv_size(der_encoded) == len(der_encoded)) or '
+                                                   '(strict and (len(%s) == 0 or (len(%s) >= 2 and %s[0] == 0 and %s[1] < 128)))'
+                                            % (iok, icontent, icontent, icontent, icontent))},
+                     ensures={'self': 'result is self', 'payload': 'self.payload == ' + icontent,
+                              'value': 'self.value == spec.der.int_value(self.payload)'},
+                     modifies=['self.payload', 'self._tag_octet', 'self.value'], returns='self',
+                     inline=[A + 'DerObject.decode'], opaque=TLV + ['spec.der.int_value']))
+    # ---------------- DerSequence
+    reg.add(ClassContract(A + 'DerSequence',
+                          fields={'_tag_octet': 'int[0..255]|none', 'payload?': 'bytes', '_inner_tag_octet?': 'int[0..255]',
+                                  '_seq?': 'list()', '_nr_elements': 'none|nat|tuple(nat,nat)|tuple(nat,nat,nat,nat)'}))
+    sl = 'p._buffer[p._bookmark:p._index]'
+    reg.add(Contract(A + 'DerSequence._decodeFromStream', params={'s': S, 'strict': 'bool'},
+                     raises={'ValueError': ('only_if', 'True')},
+                     ensures={'payload': 'self.payload == ' + content % (orem, orem),
+                              'consumed': 's._index == old(s._index) + spec.der.tlv_size(%s)' % orem, 'valid': 'valid(s)',
+                              'count': 'self._nr_elements is None or (len(self._seq) == self._nr_elements if isinstance(self._nr_elements, int) '
+                                       'else len(self._seq) in self._nr_elements)'},
+                     modifies=['s._index', 'self.payload', 'self._tag_octet', 'self._seq'],
+                     loops={0: {'invariant': ['valid(p)', 'p._buffer == self.payload'],
+                                'havoc': ['p._index', 'p._bookmark', 'self._seq'], 'types': {'self._seq': 'alist:seq', 'p._bookmark': 'nat'}}},
+                     opaque=TLV + ['spec.der.int_value'],
+                     options={'on_append_instances': {'seq': ['spec.der.lemma_tlv_prefix(p._buffer[p._bookmark:], None)']},
+                              'on_append': {'seq': [
+                         # every member handed out is either the complete TLV as found in the payload, or -- for INTEGERs -- its value
+                         'isinstance(item, bytes) ==> item == %s' % sl,
+                         '%s == p._buffer[p._bookmark:][:spec.der.tlv_size(p._buffer[p._bookmark:])]' % sl,
+                         'isinstance(item, bytes) ==> spec.der.tlv_ok(item, None)',
+                         'isinstance(item, bytes) ==> spec.der.tlv_size(item) == len(item)',
+                         'isinstance(item, bytes) ==> item[0] != 2',
+                         'isinstance(item, int) ==> (spec.der.tlv_ok(%s, 2) and spec.der.tlv_size(%s) == len(%s) and '
+                         'item == spec.der.int_value(spec.der.tlv_content(%s)))' % (sl, sl, sl, sl),
+                         'isinstance(item, bytes) or isinstance(item, int)']}}))
     return reg
 
 
@@ -108,5 +148,5 @@ def units(prop, tier):
         return []
     return [pyvc_unit(prop, 'asn1.' + t, registry, [A + t])
             for t in ['BytesIO_EOF.read', 'BytesIO_EOF.read_byte', 'DerObject._decodeLen', 'DerObject._decodeFromStream', 'DerObject.decode',
-                      'DerInteger._decodeFromStream', 'DerObject._definite_form', 'DerObject.encode']] + \
-           [pyvc_unit(prop, 'asn1.lemma.' + t, registry, ['spec.der.' + t]) for t in ['lemma_len_prefix', 'lemma_tlv_build']]
+                      'DerInteger._decodeFromStream', 'DerObject._definite_form', 'DerObject.encode', 'DerInteger.decode', 'DerSequence._decodeFromStream']] + \
+           [pyvc_unit(prop, 'asn1.lemma.' + t, registry, ['spec.der.' + t]) for t in ['lemma_len_prefix', 'lemma_tlv_build', 'lemma_len_trunc', 'lemma_tlv_prefix']]
